@@ -1,11 +1,11 @@
 CONSTANTS
   Prelude <- PreDecls
-  Fresh <- Fresh2
+  Fresh <- Fresh3
   PreScopes = {"_SB_"}
-  MaxProd = 2  MaxTables = 1  MaxDepth = 1
-  Decls = {"Alias", "External", "CreateField", "Name"}
-  Forms = {"abs"}
-  Values = {"pkgref", "pkgmeth", "bufname", "bufcall"}
+  MaxProd = 1  MaxTables = 1  MaxDepth = 1
+  Decls = {"Alias", "External", "CreateField", "Name", "Scope"}
+  Forms = {"abs", "caret"}
+  Values = {"const", "pkgref", "pkgmeth", "bufname", "bufcall", "bufop"}
   Stmts = {}  MaxStmts = 0
   Devs = {"IndexFieldNamed", "AliasKeepsSourceName", "ExternalIsObject", "CreateFieldNotNamed", "PackageMethodRefInvoked", "VarPackageCountByte", "MatchOperatorBytes", "LoadTableSevenOperands", "IfBodyFlattened", "RelPathInTerm", "ValueNamesFromFinalPlace", "EmptyBufferInDeferred"}
   Excluded = {"D1", "D1b", "D2", "D2c", "D3", "D5", "D6", "D7", "D9", "IndexFieldNamed", "AliasKeepsSourceName", "ExternalIsObject", "CreateFieldNotNamed", "PackageMethodRefInvoked", "VarPackageCountByte", "MatchOperatorBytes", "LoadTableSevenOperands", "IfBodyFlattened", "RelPathInTerm", "ValueNamesFromFinalPlace", "EmptyBufferInDeferred", "InvisibleCallee", "MethodAsRef", "HiddenNameInDeferred", "BankFieldUnitInDeferred"}
